@@ -23,7 +23,10 @@
    observed directly and is inserted when a check event reports the loop test as failed.        *)
 EXTENDS LCDSearchSM, Json, IOUtils
 
-Cases == ndJsonDeserialize(IOEnv.CASES)
+\* the cases are parsed once and kept in a TLC register (a plain definition is re-evaluated, i.e. the
+\* file re-parsed, at several use sites per case: quadratic)
+ASSUME TLCSet(1, ndJsonDeserialize(IOEnv.CASES))
+Cases == TLCGet(1)
 VARIABLES tid, ei
 tvars == <<par, wst, wpos, shared, cpc, expired, timedOut, copied, result, joined, tid, ei>>
 
@@ -34,9 +37,9 @@ AbsKernel(c) == [n |-> c.n, src |-> [i \in 1..c.n |-> ToSet(c.src[i])], lat |-> 
 Entry(c) == IF IsSrc(c) THEN Build(AbsKernel(c))
             ELSE IF IsEdges(c) THEN [n |-> c.n, cyc |-> [r \in 1..c.n |-> {}], np |-> [r \in 1..c.n |-> 0 - 1]]
             ELSE [n |-> c.n, cyc |-> [r \in 1..c.n |-> ToSet(c.cyc[r])], np |-> [r \in 1..c.n |-> c.np[r]]]
-TraceKTab == [i \in 1..Len(Cases) |-> Entry(Cases[i])]
+TraceKTab(i) == Entry(Cases[i])
 ParOf(i) == [kid |-> i, n |-> Cases[i].n, nw |-> Cases[i].nw, to |-> Cases[i].to]
-NP == KTab[par.kid].np
+NP == KTab(par.kid).np
 
 \* observed LCD list -> set comparable with the table (records [key, lat] / opaque ids)
 Rec(c, x) == IF IsSrc(c) THEN [key |-> x.key, lat |-> x.lat] ELSE x
